@@ -10,7 +10,7 @@ instantiates the rule's own path template; the mock values have the Python type 
 ranges the emitted assertions rely on, always come out of `mock_value_original_type` (the visited set ends the
 recursion) and fit the types they are handed to; `mock_value` is the same for every sufficient recursion depth
 and has NO value for a message whose first field is a map back to itself (the real generator raises
-RecursionError there: finding `generation:RecursionError@schema/wrappers.py:map`).
+RecursionError there: finding `generation:RecursionError@mock_value:map-value-cycle-in-flattened-field`).
 Helper lemmas: Lemmas/C13Mock.lean.
 -/
 namespace GapicModel.Props.C13
